@@ -118,6 +118,9 @@ const (
 	OpF2SI // float -> signed bv (truncate toward zero), to t.sort
 	OpFIsNaN
 	OpFIsNeg // sign bit set (fp.isNegative); in real mode x < 0
+	OpFFloor // round to integral toward -inf
+	OpFCeil  // round to integral toward +inf
+	OpFRound // round to integral, ties away from zero (math.Round)
 )
 
 type Term struct {
@@ -735,6 +738,41 @@ func (tb *TermTab) FNeg(a *Term) *Term {
 	return tb.mk(OpFNeg, SFloat, a)
 }
 
+// FRoundOp builds floor/ceil/round-half-away of a float term.
+func (tb *TermTab) FRoundOp(op Op, a *Term) *Term {
+	if a.IsConst() {
+		var f func(float64) float64
+		switch op {
+		case OpFFloor:
+			f = math.Floor
+		case OpFCeil:
+			f = math.Ceil
+		default:
+			f = math.Round
+		}
+		if FloatReal {
+			// exact on rationals
+			num, den := new(big.Int).Set(a.rat.Num()), a.rat.Denom()
+			q, m := new(big.Int).DivMod(num, den, new(big.Int)) // floor division (den > 0)
+			switch op {
+			case OpFCeil:
+				if m.Sign() != 0 {
+					q.Add(q, big.NewInt(1))
+				}
+			case OpFRound:
+				twice := new(big.Int).Lsh(m, 1)
+				c := twice.Cmp(den)
+				if c > 0 || (c == 0 && a.rat.Sign() >= 0) {
+					q.Add(q, big.NewInt(1))
+				}
+			}
+			return tb.Rat(new(big.Rat).SetInt(q))
+		}
+		return tb.Float(f(a.F64()))
+	}
+	return tb.mk(op, SFloat, a)
+}
+
 func (tb *TermTab) fCmp(op Op, a, b *Term) *Term {
 	if a.IsConst() && b.IsConst() {
 		if FloatReal {
@@ -913,6 +951,18 @@ func (t *Term) Body() string {
 			n = map[Op]string{OpFLt: "fp.lt", OpFLe: "fp.leq", OpFEq: "fp.eq"}[t.op]
 		}
 		return fmt.Sprintf("(%s %s %s)", n, r(0), r(1))
+	case OpFFloor, OpFCeil, OpFRound:
+		if FloatReal {
+			switch t.op {
+			case OpFFloor:
+				return fmt.Sprintf("(to_real (to_int %s))", r(0))
+			case OpFCeil:
+				return fmt.Sprintf("(- (to_real (to_int (- %s))))", r(0))
+			default: // ties away from zero
+				return fmt.Sprintf("(ite (>= %s 0.0) (to_real (to_int (+ %s 0.5))) (- (to_real (to_int (+ (- %s) 0.5)))))", r(0), r(0), r(0))
+			}
+		}
+		return fmt.Sprintf("(fp.roundToIntegral %s %s)", map[Op]string{OpFFloor: "RTN", OpFCeil: "RTP", OpFRound: "RNA"}[t.op], r(0))
 	case OpFIsNaN:
 		return fmt.Sprintf("(fp.isNaN %s)", r(0))
 	case OpFIsNeg:
